@@ -940,14 +940,16 @@ thread_local! {
 }
 /// two-key chords over most pairs of the ten keys, so that a random continuation types some of them
 const ZIPPY_DICT: &str = "df\tday\ngh\thello\njk\tjoke\ndg\tdog\nfh\tfish\nad\tadd\nkl\tkeel\nhj\thaj\nfg\tfog\nal\tall\n";
-const N_NEW: usize = 3;
+const N_NEW: usize = 4;
 /// valid new configurations (they use overrides, sequences, virtual keys, tap-hold, one-shot so that a
 /// field forgotten by `do_live_reload` shows in the comparison with a fresh instance)
 fn rich_new(i: usize) -> String {
     match i {
         0 => "(defsrc a s d f g h j k l ;)\n(defoverrides (lsft 1) (2))\n(deflayer first 1 lrld lsft 3 (layer-while-held second) 4 5 6 7 8)\n(deflayer second a _ b c _ d e f g h)\n".to_string(),
         1 => "(defcfg sequence-timeout 500)\n(defsrc a s d f g h j k l ;)\n(defvirtualkeys sq2 q)\n(defseq sq2 (3 4))\n(deflayer n1 3 lrld 4 sldr rpt (tap-hold 150 150 5 lctl) (one-shot 300 lsft) 6 (caps-word 1000) (macro 7 20 8))\n".to_string(),
-        _ => "(defsrc a s d f g h j k l ;)\n(defvirtualkeys v a)\n(deflayer z (unmod 9) lrld (on-press tap-vkey v) mlft (mwheel-down 40 120) 0 (dynamic-macro-play 1) (movemouse-left 4 1) lalt (multi lctl 1))\n".to_string(),
+        2 => "(defsrc a s d f g h j k l ;)\n(defvirtualkeys v a)\n(deflayer z (unmod 9) lrld (on-press tap-vkey v) mlft (mwheel-down 40 120) 0 (dynamic-macro-play 1) (movemouse-left 4 1) lalt (multi lctl 1))\n".to_string(),
+        // every key is itself and there is no defzippy: chords of an old dictionary must be gone
+        _ => "(defsrc a s d f g h j k l ;)\n(deflayer idn a lrld d f g h j k l ;)\n".to_string(),
     }
 }
 
@@ -1213,7 +1215,7 @@ fn run_r(hist: usize, kind: &str, newi: usize, seed: u64) -> (String, bool) {
         if Some(*i) == ok_iter || t.starts_with("M.reload") {
             msgs.push(if t.starts_with("M.reload.0") {
                 "reload".to_string()
-            } else if *t == format!("M.layer.{}", ["first", "n1", "z"][newi]) {
+            } else if *t == format!("M.layer.{}", ["first", "n1", "z", "idn"][newi]) {
                 "layer".to_string()
             } else {
                 t.clone()
